@@ -37,13 +37,13 @@ WithRes(S, res, feats) == [res |-> res, topo |-> S.topo, feats |-> feats, refs |
 InsertC(H, i, G) ==
   LET n == Len(G.res)
       hs == MapLoc(H.feats, LAMBDA t : ShiftLoc(t, i, n))
-      gs == MapLoc(G.feats, LAMBDA t : ExpandLoc(t, 0, i))
+      gs == MapLoc(G.feats, LAMBDA t : OffsetLoc(t, i))
   IN WithRes(H, Splice(H.res, i, G.res), FInsertAll(FInsertAll(<<>>, hs), gs))
 
 EmbedC(H, i, G) ==
   LET n == Len(G.res)
       hs == MapLoc(H.feats, LAMBDA t : ExpandLoc(t, i, n))
-      gs == MapLoc(G.feats, LAMBDA t : ExpandLoc(t, 0, i))
+      gs == MapLoc(G.feats, LAMBDA t : OffsetLoc(t, i))
   IN WithRes(H, Splice(H.res, i, G.res), FInsertAll(FInsertAll(<<>>, hs), gs))
 
 DeleteC(S, i, n) ==
@@ -70,7 +70,10 @@ SliceC(S, a, b) ==
                        LET loc == ExpandLoc(ExpandLoc(keep[j].loc, b1, b1 - L), 0, 0 - a1)
                        IN RawFeat(keep[j], IF keep[j].key = "source" THEN AsComplete(loc) ELSE loc)]
           IN [res |-> SubSeq(S.res, a1 + 1, b1), topo |-> IF S.topo = "na" THEN "na" ELSE "linear",
-              feats |-> fs, refs |-> S.refs, region |-> S.region]
+              feats |-> fs, refs |-> S.refs,
+              \* GenBankFields.Slice records the window (refs are clipped there
+              \* too; transcribed in GenBank.tla); other metadata has no region
+              region |-> IF S.topo = "na" THEN S.region ELSE <<a1, b1>>]
 
 ReverseC(S) ==
   LET L == Len(S.res)
@@ -86,7 +89,7 @@ RECURSIVE ConcatFrom(_, _, _)
 ConcatFrom(res, ff, rest) ==
   IF rest = <<>> THEN <<res, ff>>
   ELSE LET T == Head(rest)
-           gs == MapLoc(T.feats, LAMBDA t : ExpandLoc(t, 0, Len(res)))
+           gs == MapLoc(T.feats, LAMBDA t : OffsetLoc(t, Len(res)))
        IN ConcatFrom(res \o T.res, FInsertAll(ff, gs), Tail(rest))
 
 ConcatC(Ss) ==
